@@ -45,8 +45,10 @@ def run(ctx):
         for c in f.walk():
             if c["k"] == "CXXMemberCallExpr" and callee(c) == "occa::modeKernel_t::run" and c.get("vdisp"):
                 callers.add(f.q + " " + f.d["sig"])
-    ok = callers == {kr.q + " " + kr.d["sig"]}
-    R.ob("C10-R1", ok, "occa::modeKernel_t::run", "who-calls (virtual dispatch)", kr.relfile, "only kernel::run() launches: %s" % sorted(callers))
+    # launched (GPU) kernels run their host-side launcher kernel from inside their own run(), i.e. after kernel::run() validated
+    INNER = {"occa::launchedModeKernel_t::launcherRun void () const"}
+    ok = (kr.q + " " + kr.d["sig"]) in callers and callers <= ({kr.q + " " + kr.d["sig"]} | INNER)
+    R.ob("C10-R1", ok, "occa::modeKernel_t::run", "who-calls (virtual dispatch)", kr.relfile, "only kernel::run() launches (plus the launcher run nested inside a validated launch): %s" % sorted(callers))
     ops = [f for f in prog.funcs.values() if f.q == "occa::kernel::operator()" and f.d.get("tmpl") != "inst"]
     n_ok = 0
     for f in ops:
